@@ -1,6 +1,10 @@
 // Kani proof harnesses for aeron-rs; compiled into the crate through the cfg(kani) hook in src/lib.rs.
 #![allow(dead_code, unused_imports, unused_variables, unused_mut, clippy::all)]
 
+pub mod hook;
 pub mod util;
 
+pub mod c14;
+pub mod c15;
+pub mod c16;
 pub mod c17;
